@@ -205,6 +205,7 @@ func runWorkerWith(cfg propCfg, extraEnv []string, args ...string) (results []*r
 type agg struct {
 	runs, ops, events   int
 	autoRuns            int
+	autoBudget          int
 	switches, windowSw  int
 	faults, probes      map[string]int
 	foreign             map[string]int
@@ -307,7 +308,13 @@ func (a *agg) add(p string, r *run.Result, batchFrom uint64, auto bool, spec fun
 		a.selfcheckMismatches = append(a.selfcheckMismatches, fmt.Sprintf("seed %d", r.Seed))
 	}
 	if r.Tainted && !r.Deadlock {
-		a.tainted = append(a.tainted, fmt.Sprintf("seed %d: step budget exhausted", r.Seed))
+		if auto {
+			// statement-granular runs of many tasks can outgrow the event
+			// budget on a healthy tree: abandoned, counted, not an error
+			a.autoBudget++
+		} else {
+			a.tainted = append(a.tainted, fmt.Sprintf("seed %d: step budget exhausted", r.Seed))
+		}
 	}
 	if strings.HasPrefix(r.Note, "controller compile failed") {
 		a.tainted = append(a.tainted, fmt.Sprintf("seed %d: %s", r.Seed, r.Note))
@@ -466,7 +473,7 @@ func doCheck(cfg propCfg) int {
 					infra = append(infra, inf...)
 					for _, r := range results {
 						r := r
-						a.add(*prop, r, from, auto, func() *run.Spec { return run.Generate(*prop, r.Seed, *tier) })
+						a.add(*prop, r, from, auto, func() *run.Spec { return run.GenerateFor(*prop, r.Seed, *tier, auto) })
 					}
 					mu.Unlock()
 					doneHere := len(results)
@@ -517,8 +524,7 @@ func doCheck(cfg propCfg) int {
 		seen[k] = true
 		cfg := cfg
 		cfg.autoBin = h.auto
-		spec := run.Generate(*prop, h.res.Seed, *tier)
-		spec.Auto = h.auto
+		spec := run.GenerateFor(*prop, h.res.Seed, *tier, h.auto)
 		spec.Switches = h.res.Switches
 		if spec.Switches == nil {
 			spec.Switches = nonNilSwitches()
@@ -653,6 +659,7 @@ func doCheck(cfg propCfg) int {
 		"inconclusive":         a.inconclusive,
 		"unconfirmed":          unconfirmed,
 		"skipped_confounded":   a.confounded,
+		"auto_yield_runs_abandoned_at_event_budget": a.autoBudget,
 		"foreign_observations": a.foreign,
 		"kinds":                a.kinds,
 		"strategies":           a.strategies,
